@@ -262,7 +262,12 @@ CMDS = [("arp", ["arp", "-i", "v0", "10.78.0.0/30"]),
         ("udp", ["udp", "-i", "v0", "-a", "ARP", "-p", "53", "10.78.0.2/32"]),
         ("socks", ["socks", "-p", "9", "10.78.0.1/32"]),
         ("docker", ["docker", "-p", "9", "10.78.0.1/32"]),
-        ("elastic", ["elastic", "-p", "9", "10.78.0.1/32"])]
+        ("elastic", ["elastic", "-p", "9", "10.78.0.1/32"]),
+        # more than 200 port RANGES: startPortScanEngine runs 3 chunks, each a complete scan with its own exit delay
+        ("tcp syn (450 port ranges, 3 chunks)", ["tcp", "syn", "-i", "v0", "-a", "ARP", "-p",
+                                                 ",".join(str(x) for x in range(1001, 1901, 2)), "10.78.0.2/32"])]
+IDX_CHUNKED = len(CMDS) - 1
+CHUNKS = {IDX_CHUNKED: 3}
 
 
 def cmd_runs(ctx, idxs, delay_ms=700):
@@ -290,7 +295,8 @@ def cmd_runs(ctx, idxs, delay_ms=700):
         for i in idxs:
             name, args = CMDS[i % len(CMDS)]
             args = [arp if a == "ARP" else a for a in args]
-            o = {"kind": "cmd", "class": "cmd", "id": i % len(CMDS), "cmd": name, "delay_ms": delay_ms}
+            o = {"kind": "cmd", "class": "cmd", "id": i % len(CMDS), "cmd": name, "delay_ms": delay_ms,
+                 "chunks": CHUNKS.get(i % len(CMDS), 1)}
             t0 = time.monotonic_ns()
             try:
                 p = subprocess.run(["ip", "netns", "exec", ns, exe] + args + ["--exit-delay", "%dms" % delay_ms],
@@ -310,8 +316,10 @@ def cmd_runs(ctx, idxs, delay_ms=700):
 def spec_cmd(o):
     if o.get("err"):
         return None
-    if o["wall_ns"] < o["delay_ms"] * MS:
-        return "sx %s --exit-delay %dms: the whole process lived only %d ms" % (o["cmd"], o["delay_ms"], o["wall_ns"] // MS)
+    if o["wall_ns"] < o.get("chunks", 1) * o["delay_ms"] * MS:
+        return "sx %s --exit-delay %dms: the whole process lived only %d ms%s" % (
+            o["cmd"], o["delay_ms"], o["wall_ns"] // MS,
+            " (%d chunks, each must keep listening for the exit delay)" % o["chunks"] if o.get("chunks", 1) > 1 else "")
     return None
 
 
@@ -380,8 +388,8 @@ def run(ctx):
             why = spec_e2e(o)
             if why:
                 report(ctx, o, why, ctx.seed, n)
-        crows = cmd_runs(ctx, [ctx.seed * 2 % len(CMDS), (ctx.seed * 2 + 1) % len(CMDS)] if quick else range(len(CMDS)),
-                         delay_ms=500 if quick else 700)
+        crows = cmd_runs(ctx, [ctx.seed * 2 % IDX_CHUNKED, (ctx.seed * 2 + 1) % IDX_CHUNKED, IDX_CHUNKED] if quick else range(len(CMDS)),
+                         delay_ms=400 if quick else 700)
         for o in crows:
             if o.get("err"):
                 ctx.skipped.append("sx %s --exit-delay: %s" % (o["cmd"], o["err"]))
